@@ -76,7 +76,7 @@ func main() {
 	keys := []string{"a", "b", "/c"}
 	deadline := time.Now().Add(4 * time.Minute)
 	if run.Thorough() {
-		deadline = time.Now().Add(25 * time.Minute)
+		deadline = time.Now().Add(12 * time.Minute)
 	}
 	al := alphabet(keys, run.Thorough())
 	workers := runtime.NumCPU()
